@@ -50,9 +50,6 @@ EDITS = {
                                                 "        self.cached_default_forms = _DEFAULT_FORMS  # type: list[tuple[bs4.Tag, bs4.Tag]]"),
                                                (M, "class CSSMatch(_DocumentNav):", "_DEFAULT_FORMS = []  # type: list[Any]\n\n\nclass CSSMatch(_DocumentNav):")],
                                        ':default memo shared by all calls (stale after the document changes / ids reused)'),
-    'C08-dir-none-parent': ('C08', [(M, "        if el is None or not self.is_html_tag(el):\n            return False\n\n        # Element has defined direction",
-                                     "        if not self.is_html_tag(el):\n            return False\n\n        # Element has defined direction")],
-                            'match_dir(None) walks off a detached subtree'),
     'C11-lower-unicode': ('C11', [(U, "        new_string.append(chr(o + 32) if UC_A <= o <= UC_Z else c)", "        new_string.append(c.lower())")], 'Unicode-aware lower'),
     'C12-default-ns-ignored-in-is': ('C12', [(M, "        if tag.prefix is None and (default_namespace is not None and namespace != default_namespace):",
                                               "        if tag.prefix is None and tag.name != '*' and (default_namespace is not None and namespace != default_namespace):")],
@@ -87,7 +84,6 @@ EDITS = {
             col = index - last + 1""", """            indent = '--> '
             offset = (-1 if index > m.start(0) else 0) + 3
             col = index - last + (1 if current_line == 1 else 0)""")], 'column zero-based on continuation lines'),
-    'C10-escape-del-literal': ('C10', [(P, "            elif (0x01 <= codepoint <= 0x1F) or codepoint == 0x7F:", "            elif (0x01 <= codepoint <= 0x1F):")], 'DEL emitted literally'),
     'C14-lower-shared-buffer': ('C14', [(U, """@lru_cache(maxsize=512)
 def lower(string: str) -> str:
     \"\"\"Lower.\"\"\"
